@@ -147,8 +147,18 @@ type serverStream struct {
 }
 
 func (s *serverStream) SetHeader(md metadata.MD) error {
+	if md.Len() == 0 {
+		return nil
+	}
 	s.headerM.Lock()
 	defer s.headerM.Unlock()
+
+	// like gRPC, headers can't be changed once they have been sent: the client may already have read them
+	select {
+	case <-s.headerC:
+		return errors.New("headers already sent")
+	default:
+	}
 	s.header = metadata.Join(s.header, md)
 	return nil
 }
